@@ -63,78 +63,6 @@ Lemma files_length : forall fs, (length (files fs) <= length fs)%nat.
 Proof. induction fs as [|e fs IH]; [cbn; lia|]. destruct e; cbn [files length]; lia. Qed.
 
 (* ------------------------------------------------------------------ spelled vs real directories *)
-Lemma rl_app : forall cwd ab x y, rl cwd ab (x ++ y) = rl cwd ab x ++ y.
-Proof. intros cwd [|] x y; cbn [rl]; [reflexivity | apply app_assoc]. Qed.
-
-Lemma length_removelast : forall (l : list seg), length (removelast l) = pred (length l).
-Proof.
-  induction l as [|x l IH]; [reflexivity|]. destruct l as [|y l]; [reflexivity|].
-  change (removelast (x :: y :: l)) with (x :: removelast (y :: l)). cbn [length]. rewrite IH. reflexivity.
-Qed.
-
-Lemma length_iter_parent : forall n (b : list seg), length (up n b) = (length b - n)%nat.
-Proof.
-  induction n as [|n IH]; intro b; cbn [up]; [lia|].
-  unfold parent at 1. rewrite length_removelast, IH. lia.
-Qed.
-
-Lemma iter_parent_app : forall n cwd (b : list seg), (n <= length b)%nat ->
-  cwd ++ up n b = up n (cwd ++ b).
-Proof.
-  induction n as [|n IH]; intros cwd b Hn; cbn [up]; [reflexivity|].
-  rewrite <- IH by lia. unfold parent at 2. rewrite removelast_app; [reflexivity|].
-  intro E. pose proof (length_iter_parent n b) as L. rewrite E in L. cbn in L. lia.
-Qed.
-
-Lemma find_root_rev_app : forall fs cwd r,
-  marker_on_walk fs (app cwd) r = true ->
-  find_root_rev fs (fun d => d) (r ++ rev cwd) = find_root_rev fs (app cwd) r ++ rev cwd.
-Proof.
-  intros fs cwd. induction r as [|x r IH]; intro H.
-  - cbn [marker_on_walk] in H. rewrite orb_false_r in H. cbn [rev app] in H.
-    cbn [app]. destruct (rev cwd) as [|y l] eqn:E.
-    + cbn [find_root_rev rev]. cbn [find_root_rev]. rewrite app_nil_r in H.
-      assert (cwd = []) as ->.
-      { rewrite <- (rev_involutive cwd), E. reflexivity. }
-      cbn [app rev] in *. rewrite H. reflexivity.
-    + cbn [find_root_rev]. rewrite <- E, rev_involutive. rewrite app_nil_r in H. cbn [rev app]. rewrite H.
-      cbn [find_root_rev]. cbn [rev app]. rewrite app_nil_r, H. reflexivity.
-  - cbn [marker_on_walk] in H. cbn [app]. cbn [find_root_rev].
-    replace (rev (x :: r ++ rev cwd)) with (cwd ++ rev (x :: r)).
-    2:{ change (x :: r ++ rev cwd) with ((x :: r) ++ rev cwd). rewrite rev_app_distr, rev_involutive. reflexivity. }
-    destruct (marker fs (cwd ++ rev (x :: r))) eqn:M.
-    + reflexivity.
-    + cbn [orb] in H. apply IH. exact H.
-Qed.
-
-Lemma find_root_app : forall fs cwd b,
-  marker_on_walk fs (app cwd) (rev b) = true ->
-  find_root fs (fun d => d) (cwd ++ b) = cwd ++ find_root fs (app cwd) b.
-Proof.
-  intros fs cwd b H. unfold find_root. rewrite rev_app_distr, (find_root_rev_app fs cwd (rev b) H).
-  rewrite rev_app_distr, rev_involutive. reflexivity.
-Qed.
-
-Lemma crate_target_app : forall fs cwd b,
-  marker_on_walk fs (app cwd) (rev b) = true ->
-  crate_target fs (fun d => d) (cwd ++ b) = cwd ++ crate_target fs (app cwd) b.
-Proof.
-  intros fs cwd b H. unfold crate_target. rewrite (find_root_app fs cwd b H).
-  rewrite <- app_assoc. destruct (dir_exists fs (cwd ++ find_root fs (app cwd) b ++ [SRC])); [|reflexivity].
-  rewrite app_assoc. reflexivity.
-Qed.
-
-Lemma target_dir_rl : forall fs cwd ab b i,
-  k_underflow fs cwd ab b i = false ->
-  rl cwd ab (target_dir fs (rl cwd ab) i b) = target_dir fs (fun d => d) i (rl cwd ab b).
-Proof.
-  intros fs cwd ab b i H. unfold k_underflow in H. destruct ab; cbn [negb andb] in H.
-  - unfold target_dir, crate_target, find_root. cbn [rl]. reflexivity.
-  - unfold target_dir. cbn [rl]. change (rl cwd false) with (app cwd). destruct (iabs i).
-    + apply negb_false_iff in H. symmetry. apply crate_target_app. exact H.
-    + apply Nat.ltb_ge in H. apply iter_parent_app. exact H.
-Qed.
-
 (* ------------------------------------------------------------------ agreement *)
 Lemma msegs_no_multi : forall i, k_multi i = false -> msegs i = isegs i.
 Proof. intros i H. unfold k_multi in H. unfold msegs. destruct (ikd i); [rewrite H|]; reflexivity. Qed.
@@ -142,16 +70,15 @@ Proof. intros i H. unfold k_multi in H. unfold msegs. destruct (ikd i); [rewrite
 Lemma cli_lsp_agree : forall fs cwd ab b i,
   k_multi i = false ->
   k_modonly fs (rl cwd ab b) i = false ->
-  k_underflow fs cwd ab b i = false ->
   option_map fst (cli_resolve fs cwd ab b i) = rip fs (rl cwd ab b) i.
 Proof.
-  intros fs cwd ab b i Hm Hd Hu. unfold cli_resolve, rip, k_modonly in *.
+  intros fs cwd ab b i Hm Hd. unfold cli_resolve, rip, k_modonly in *.
   destruct (skip i); [reflexivity|]. cbn [negb andb] in Hd.
-  rewrite (msegs_no_multi i Hm). rewrite <- (target_dir_rl fs cwd ab b i Hu) in *.
+  rewrite (msegs_no_multi i Hm).
   destruct (split_last (isegs i)) as [[ini s]|]; [|reflexivity].
-  rewrite rl_app. unfold cli_cands, rip_cands. cbn [find].
-  destruct (file_exists fs (P (rl cwd ab (target_dir fs (rl cwd ab) i b) ++ ini) s Incn)); [reflexivity|].
-  destruct (file_exists fs (P (rl cwd ab (target_dir fs (rl cwd ab) i b) ++ ini) s Incan)); [reflexivity|].
+  unfold cli_cands, rip_cands. cbn [find].
+  destruct (file_exists fs (P (target_dir fs (fun d => d) i (rl cwd ab b) ++ ini) s Incn)); [reflexivity|].
+  destruct (file_exists fs (P (target_dir fs (fun d => d) i (rl cwd ab b) ++ ini) s Incan)); [reflexivity|].
   cbn [negb andb] in Hd. apply orb_false_iff in Hd. destruct Hd as [H1 H2]. rewrite H1, H2. reflexivity.
 Qed.
 
@@ -163,10 +90,15 @@ Proof.
   destruct (skip i); [reflexivity|]. cbn [negb andb] in H.
   destruct (split_last (msegs i)) as [[ini s]|]; [|reflexivity].
   unfold mr_cands, cli_cands. cbn [find].
-  destruct (file_exists fs (P (rl cwd ab (target_dir fs (rl cwd ab) i b ++ ini)) s Incn)); [reflexivity|].
+  destruct (file_exists fs (P (target_dir fs (fun d => d) i (rl cwd ab b) ++ ini) s Incn)); [reflexivity|].
   cbn [negb andb] in H. apply orb_false_iff in H. destruct H as [H H3]. apply orb_false_iff in H. destruct H as [H1 H2].
   rewrite H1, H2, H3. reflexivity.
 Qed.
+
+(* the way the entry is spelled no longer matters *)
+Lemma cli_resolve_spelling : forall fs cwd ab b i,
+  cli_resolve fs cwd ab b i = cli_resolve fs [] true (rl cwd ab b) i.
+Proof. intros. reflexivity. Qed.
 
 Lemma lsp_meets_spec : forall fs d i, k_multi i = false -> rip fs d i = spec_resolve fs d i.
 Proof. intros fs d i H. unfold rip, spec_resolve. rewrite (msegs_no_multi i H). reflexivity. Qed.
